@@ -36,11 +36,11 @@ def field_spans(lay, mfm, nsec):
     return spans
 
 
-def damage(r, cells, spans, order):
+def damage(r, cells, spans, order, kind=None):
     """returns (cells', set of physical indexes whose fields were hit by guaranteed-detectable damage,
     set of physical indexes possibly affected in any way, description)"""
     c = list(cells)
-    kind = r.below(13)
+    kind = r.below(13) if kind is None else kind % 13
     hit, touched = set(), set()
     if kind <= 3:      # detectable damage inside one or more fields
         for _ in range(r.range(1, 3)):
@@ -146,7 +146,7 @@ def run(ctx):
         elif r.chance(1, 12):
             bad, hit, touched, desc = list(cells), set(), set(), 'intact'
         else:
-            bad, hit, touched, desc = damage(r, cells, spans, lay.order)
+            bad, hit, touched, desc = damage(r, cells, spans, lay.order, kind=k)      # every damage kind in every run
         if mfm:
             data, first, stride = flux.pack_lsb(bad), 0, 1
         else:
